@@ -1,5 +1,5 @@
 CONSTANTS Depth = 4
- Leaves = {"error", "fixt.A", "clash.C", "fixt.Gen[fixt2.B]", "subjson.J", "stdjson.RawMessage", "fixt.Gen[dotted.D]"}
+ Leaves = {"error", "fixt.A", "clash.C", "fixt.Gen[fixt2.B]", "subjson.J", "stdjson.RawMessage", "fixt.Gen[dotted.D]", "fixt.PA", "fixt.Gen[stdtime.Duration]"}
  Ctors = {"ptr", "slice", "mapS", "chan", "struct2"}
  Targets = {"fixt", "fixt2", "clash-pre", "dotted"}
  Views = {"types", "reflect"}
